@@ -732,6 +732,7 @@ pub const GADGETS: &[&str] = &[
     "huge_malloc", "huge_stack", "printf_nonconst", "unchecked_return", "time_srand", "system_sprintf", "stack_overflow_store", "call_helper", "call_helper",
     "string_building", "string_building", "callee_frees", "callee_frees", "realloc_use", "call_helper_ptr", "call_helper_ptr",
     "dangling_return", "dangling_return", "malloc_deref_paths", "malloc_deref_paths",
+    "alu_chain", "alu_chain", "sscanf_two_outputs", "call_alloc_driver", "call_alloc_driver",
 ];
 
 impl<'a> Gen<'a> {
@@ -952,6 +953,54 @@ impl<'a> Gen<'a> {
                 out.push(b);
                 self.note_addr(join);
                 b = Blk::new(join, None);
+            }
+            "alu_chain" if !p.stack_args => {
+                // integer mixing code (hash finalisers, checksums): a long chain of dependent ALU
+                // operations on one register, a second register derived from it, and its use in a
+                // store / call argument in the next block
+                let acc = ret;
+                let other = p.params[1 % p.params.len()];
+                b.next_insn();
+                b.def(Some(reg(acc, p.ptr)), expr("INT_MULT", &[reg(p.params[0], p.ptr), cst(3, p.ptr)]));
+                for i in 0..self.r.range(9, 14) {
+                    b.next_insn();
+                    let op = *self.r.pick(&["INT_ADD", "INT_XOR", "INT_ADD", "INT_OR", "INT_SUB"]);
+                    let src = if i % 3 == 2 { cst(self.r.below(255) + 1, p.ptr) } else { reg(other, p.ptr) };
+                    b.def(Some(reg(acc, p.ptr)), expr(op, &[reg(acc, p.ptr), src]));
+                }
+                let derived = p.killed.iter().copied().find(|r| *r != acc && *r != other && !p.params[..1].contains(r)).unwrap_or(p.killed[0]);
+                b.next_insn();
+                b.def(Some(reg(derived, p.ptr)), expr("INT_ADD", &[reg(acc, p.ptr), cst(8, p.ptr)]));
+                let nb = slots();
+                b.next_insn();
+                let jt = b.jmp_tid();
+                b.jmps.push(json!({"tid": jt, "term": {"mnemonic": "BRANCH", "goto": {"Direct": tid(format!("blk_{}", hex(nb)), &hex(nb))}}}));
+                out.push(b);
+                self.note_addr(nb);
+                b = Blk::new(nb, None);
+                match self.r.below(3) {
+                    0 => { let v = reg(derived, p.ptr); self.i_store(&mut b, p.sp, 0, v); }
+                    1 => { let v = cst(0, p.ptr); self.i_store(&mut b, derived, 0, v); }
+                    _ => self.i_load(&mut b, sv, derived, 0, p.ptr),
+                }
+                b = call!(b, alloc, &[ArgV::Keep, ArgV::Const(0xcc0)]);
+            }
+            "sscanf_two_outputs" if !self.lkm && !p.stack_args && p.params.len() >= 4 => {
+                // sscanf("str1 str2", "%s %s", p, p + 0x10) with both outputs in one heap object
+                b = call!(b, "malloc", &[ArgV::Const(0x40)]);
+                self.i_mov_reg(&mut b, sv, ret);
+                b.next_insn();
+                b.def(Some(reg(p.params[3], p.ptr)), expr("INT_ADD", &[reg(sv, p.ptr), cst(*self.r.pick(&[0u64, 0x10, 0x20]), p.ptr)]));
+                b = call!(b, "sscanf", &[ArgV::Const(self.rodata + 0x70), ArgV::Const(self.rodata + 0x60), ArgV::Reg(sv), ArgV::Keep]);
+                b = call!(b, "system", &[ArgV::Reg(sv)]);
+            }
+            "call_alloc_driver" if self.helper != 0 && !p.stack_args => {
+                // driver(16): calls sized_user(m), sized_user(m + 4|8), sized_user(m + i) for i < 9
+                let target = self.helper + 0x600;
+                let m = *self.r.pick(&[16u64, 16, 24, 32]);
+                self.setup_args(&mut b, &[ArgV::Const(m)]);
+                let next = slots();
+                b = match self.end_with_call(b, CallTarget::Func(target), next, out) { Some(x) => x, None => return None };
             }
             "call_helper_ptr" if self.helper != 0 && !p.stack_args => {
                 // helper_put(q) { *q = 0; } called with pointers at different offsets into one buffer,
@@ -1246,7 +1295,7 @@ impl<'a> Gen<'a> {
                 (8, Some(f)) | (11 | 12, Some(f)) => {
                     // call of another (or the same) function; exotic: a call into an address where the
                     // disassembler found no function (TermCreator.handleLabelsForCalls names it anyway)
-                    let t = if self.exotic && self.r.chance(10) { self.text + 0x800 + 0x10 * self.r.below(4) } else { self.func_addrs[self.r.below(self.func_addrs.len() as u64) as usize] };
+                    let t = if self.exotic && self.r.chance(10) { self.text + 0xc00 + 0x10 * self.r.below(4) } else { self.func_addrs[self.r.below(self.func_addrs.len() as u64) as usize] };
                     if !p.stack_args && self.r.chance(60) {
                         let a = ArgV::StackBuf(-0x30);
                         let v = self.arg_value(&mut b, &a);
@@ -1395,6 +1444,8 @@ fn rodata_bytes() -> Vec<u8> {
     put(0x30, b"%d\0");
     put(0x40, b"/tmp/x\0");
     put(0x50, b"hello %s, %x\n\0");
+    put(0x60, b"%s %s\0");
+    put(0x70, b"str1 str2\0");
     ro
 }
 
@@ -1472,7 +1523,7 @@ pub fn generate(seed: u64) -> Workload {
         helper: 0,
     };
     if !p.stack_args && r.chance(35) {
-        g.helper = text + 0xa00;
+        g.helper = text + 0x400;
     }
     // distribute gadgets over functions
     let ngad = *r.pick(&[0u64, 2, 4, 6, 8, 10]);
@@ -1522,6 +1573,87 @@ pub fn generate(seed: u64) -> Workload {
         g.end_with_return(b, &mut outb);
         g.note_addr(a);
         subs.push(json!({"tid": tid(format!("sub_{}", hex(a)), &hex(a)), "term": {"name": "helper_put", "blocks": outb.iter().map(|b| b.to_json()).collect::<Vec<_>>(), "calling_convention": p.cconv}}));
+    }
+    if g.helper != 0 {
+        // sized_user(n) { p = alloc(n); p[20] = 0; }  and
+        // driver(m) { sized_user(m); sized_user(m + (c ? 4 : 8)); for (i = 0; i < 9; i++) sized_user(m + i); }
+        let alloc_name = if lkm { "__kmalloc" } else { "malloc" };
+        let user = g.helper + 0x500;
+        let driver = g.helper + 0x600;
+        let keep = p.callee_saved[0];
+        let ctr = p.callee_saved.iter().copied().find(|r| *r != keep && *r != p.sp && *r != p.fp).unwrap_or(p.killed[0]);
+        let mut outb = Vec::new();
+        let mut ok = false;
+        if let Some((alloc_addr, _, _, _)) = g.ext(alloc_name) {
+            let b = Blk::new(user, None);
+            if let Some(mut b1) = g.end_with_call(b, CallTarget::Extern(alloc_addr, false), user + 0x40, &mut outb) {
+                let t = g.u(p.ptr);
+                b1.def(Some(t.clone()), expr("INT_ADD", &[reg(p.ret, p.ptr), cst(20, p.ptr)]));
+                b1.def(None, expr("STORE", &[cst(SPACE_ID, 4), t, cst(0, 1)]));
+                g.end_with_return(b1, &mut outb);
+                ok = true;
+            }
+        }
+        if !ok {
+            outb.clear();
+            g.end_with_return(Blk::new(user, None), &mut outb);
+        }
+        g.note_addr(user);
+        subs.push(json!({"tid": tid(format!("sub_{}", hex(user)), &hex(user)), "term": {"name": "sized_user", "blocks": outb.iter().map(|b| b.to_json()).collect::<Vec<_>>(), "calling_convention": p.cconv}}));
+        // driver
+        let a = |k: u64| driver + 0x20 * k;
+        let blk_tid = |addr: u64| json!({"Direct": tid(format!("blk_{}", hex(addr)), &hex(addr))});
+        let mut outb = Vec::new();
+        let mut b0 = Blk::new(a(0), None);
+        b0.def(Some(reg(keep, p.ptr)), expr("COPY", &[reg(p.params[0], p.ptr)]));
+        let mut cur = g.end_with_call(b0, CallTarget::Func(user), a(1), &mut outb);
+        if let Some(mut b1) = cur.take() {
+            // c ? 4 : 8
+            let cond = if p.flags.is_empty() { let c = g.u(1); b1.def(Some(c.clone()), expr("INT_EQUAL", &[reg(ctr, p.ptr), cst(0, p.ptr)])); c } else { b1.def(Some(reg(p.flags[0], 1)), expr("INT_EQUAL", &[reg(ctr, p.ptr), cst(0, p.ptr)])); reg(p.flags[0], 1) };
+            let j0 = b1.jmp_tid();
+            let j1 = b1.jmp_tid();
+            b1.jmps.push(json!({"tid": j0, "term": {"mnemonic": "CBRANCH", "goto": blk_tid(a(2)), "condition": cond}}));
+            b1.jmps.push(json!({"tid": j1, "term": {"mnemonic": "BRANCH", "goto": blk_tid(a(3))}}));
+            outb.push(b1);
+            for (k, c) in [(2u64, 4u64), (3, 8)] {
+                let mut bb = Blk::new(a(k), None);
+                bb.def(Some(reg(p.params[0], p.ptr)), expr("INT_ADD", &[reg(keep, p.ptr), cst(c, p.ptr)]));
+                bb.next_insn();
+                let jt = bb.jmp_tid();
+                bb.jmps.push(json!({"tid": jt, "term": {"mnemonic": "BRANCH", "goto": blk_tid(a(4))}}));
+                outb.push(bb);
+            }
+            let b4 = Blk::new(a(4), None);
+            if let Some(mut b5) = g.end_with_call(b4, CallTarget::Func(user), a(5), &mut outb) {
+                b5.def(Some(reg(ctr, p.ptr)), expr("COPY", &[cst(0, p.ptr)]));
+                b5.next_insn();
+                let jt = b5.jmp_tid();
+                b5.jmps.push(json!({"tid": jt, "term": {"mnemonic": "BRANCH", "goto": blk_tid(a(6))}}));
+                outb.push(b5);
+                // loop head: i < 9
+                let mut b6 = Blk::new(a(6), None);
+                let cond = if p.flags.len() > 1 { b6.def(Some(reg(p.flags[1], 1)), expr("INT_LESS", &[reg(ctr, p.ptr), cst(9, p.ptr)])); reg(p.flags[1], 1) } else { let c = g.u(1); b6.def(Some(c.clone()), expr("INT_LESS", &[reg(ctr, p.ptr), cst(9, p.ptr)])); c };
+                let j0 = b6.jmp_tid();
+                let j1 = b6.jmp_tid();
+                b6.jmps.push(json!({"tid": j0, "term": {"mnemonic": "CBRANCH", "goto": blk_tid(a(7)), "condition": cond}}));
+                b6.jmps.push(json!({"tid": j1, "term": {"mnemonic": "BRANCH", "goto": blk_tid(a(9))}}));
+                outb.push(b6);
+                let mut b7 = Blk::new(a(7), None);
+                b7.def(Some(reg(p.params[0], p.ptr)), expr("INT_ADD", &[reg(keep, p.ptr), reg(ctr, p.ptr)]));
+                if let Some(mut b8) = g.end_with_call(b7, CallTarget::Func(user), a(8), &mut outb) {
+                    b8.def(Some(reg(ctr, p.ptr)), expr("INT_ADD", &[reg(ctr, p.ptr), cst(1, p.ptr)]));
+                    b8.next_insn();
+                    let jt = b8.jmp_tid();
+                    b8.jmps.push(json!({"tid": jt, "term": {"mnemonic": "BRANCH", "goto": blk_tid(a(6))}}));
+                    outb.push(b8);
+                }
+                g.end_with_return(Blk::new(a(9), None), &mut outb);
+            }
+        }
+        for k in 0..10 {
+            g.note_addr(a(k));
+        }
+        subs.push(json!({"tid": tid(format!("sub_{}", hex(driver)), &hex(driver)), "term": {"name": "driver", "blocks": outb.iter().map(|b| b.to_json()).collect::<Vec<_>>(), "calling_convention": p.cconv}}));
     }
     if g.helper != 0 {
         // make_tmp() { p = alloc(0x20); free(p); return p; }
@@ -1584,7 +1716,7 @@ pub fn generate(seed: u64) -> Workload {
     if g.exotic {
         // exotic: a function without any block (e.g. a body the disassembler could not recover)
         if r.chance(30) {
-            let a = text + 0x900;
+            let a = text + 0xd00;
             subs.push(json!({"tid": tid(format!("sub_{}", hex(a)), &hex(a)), "term": {"name": format!("FUN_{}", hex(a)), "blocks": [], "calling_convention": p.cconv}}));
         }
         // exotic: overlapping function bodies: the same block is listed in two functions
